@@ -93,3 +93,95 @@ def main(names):
     for n in names:
         bad += CASES[n]()
     sys.exit(1 if bad else 0)
+
+
+# ---- rewrite rules (C05) ----------------------------------------------------------------------
+
+def check_rewrite(model, feeds_list, what):
+    import onnxscript.rewriter
+    onnx.checker.check_model(model)
+    before = [run(model, f) for f in feeds_list]
+    try:
+        new = onnxscript.rewriter.rewrite(model)
+    except Exception as e:  # noqa: BLE001
+        print(f"{what}: rewrite() raises {type(e).__name__}: {str(e)[:200]}")
+        return 1
+    bad = 0
+    for f, b in zip(feeds_list, before):
+        try:
+            a = run(new, f)
+        except Exception as e:  # noqa: BLE001
+            print(f"{what}: rewritten model fails: {str(e)[:160]}")
+            bad += 1
+            continue
+        for x, y in zip(b, a):
+            x, y = np.asarray(x), np.asarray(y)
+            if x.shape != y.shape or not np.array_equal(x, y, equal_nan=True):
+                print(f"{what}: input { {k: v.tolist() for k, v in f.items()} }: original {x.tolist()} (shape {x.shape}) rewritten {y.tolist()} (shape {y.shape})")
+                bad += 1
+    return bad
+
+
+def _c(name, arr):
+    return helper.make_node("Constant", [], [name], value=numpy_helper.from_array(np.asarray(arr, dtype=np.float32), name))
+
+
+def _model(nodes, inputs, outputs, value_info=()):
+    g = helper.make_graph(nodes, "g", inputs, outputs, value_info=list(value_info))
+    return helper.make_model(g, opset_imports=[helper.make_opsetid("", 18)], ir_version=9)
+
+
+def case_clip_clip():
+    m = _model([_c("l1", 0.0), _c("h1", 1.0), _c("l2", 2.0), _c("h2", 3.0), helper.make_node("Clip", ["x", "l1", "h1"], ["t"]),
+                helper.make_node("Clip", ["t", "l2", "h2"], ["y"])], [vi("x", TensorProto.FLOAT, [3])], [vi("y", TensorProto.FLOAT, [3])],
+               [vi("t", TensorProto.FLOAT, [3])])
+    return check_rewrite(m, [{"x": np.array([-1.0, 0.5, 5.0], np.float32)}], "Clip(Clip(x,0,1),2,3)")
+
+
+def case_relu_clip():
+    m = _model([_c("l1", -3.0), _c("h1", -1.0), helper.make_node("Clip", ["x", "l1", "h1"], ["t"]), helper.make_node("Relu", ["t"], ["y"])],
+               [vi("x", TensorProto.FLOAT, [3])], [vi("y", TensorProto.FLOAT, [3])])
+    return check_rewrite(m, [{"x": np.array([-5.0, -2.0, 4.0], np.float32)}], "Relu(Clip(x,-3,-1))")
+
+
+def case_min_max_shape():
+    m = _model([_c("c", [[0.0]]), _c("d", [[1.0]]), helper.make_node("Max", ["x", "c"], ["t"]), helper.make_node("Min", ["t", "d"], ["y"])],
+               [vi("x", TensorProto.FLOAT, [3])], [vi("y", TensorProto.FLOAT, [1, 3])])
+    return check_rewrite(m, [{"x": np.array([-1.0, 0.5, 5.0], np.float32)}], "Min(Max(x[3], c[1,1]), d[1,1])")
+
+
+def case_add_eps():
+    m = _model([_c("e", 1e-9), helper.make_node("Add", ["x", "e"], ["y"])], [vi("x", TensorProto.FLOAT, [2])], [vi("y", TensorProto.FLOAT, [2])])
+    return check_rewrite(m, [{"x": np.array([0.0, 1e-9], np.float32)}], "Add(x, 1e-9)")
+
+
+def case_clip_no_type():
+    g = helper.make_graph([_c("l1", 0.0), _c("h1", 4.0), _c("l2", 1.0), _c("h2", 3.0), helper.make_node("Neg", ["x"], ["n"]),
+                           helper.make_node("Clip", ["n", "l1", "h1"], ["t"]), helper.make_node("Clip", ["t", "l2", "h2"], ["y"])],
+                          "g", [vi("x", TensorProto.FLOAT, [3])], [vi("y", TensorProto.FLOAT, [3])])
+    m = helper.make_model(g, opset_imports=[helper.make_opsetid("", 18)], ir_version=9)
+    return check_rewrite(m, [{"x": np.array([-1.0, -2.5, -5.0], np.float32)}], "Clip(Clip(Neg(x),0,4),1,3) without value_info on the intermediate")
+
+
+CASES.update({"clip_clip": case_clip_clip, "relu_clip": case_relu_clip, "min_max_shape": case_min_max_shape, "add_eps": case_add_eps,
+              "clip_no_type": case_clip_no_type})
+
+
+def case_expand_rank():
+    import onnxscript.rewriter
+    from onnxscript.rewriter.rules.common import _remove_expand_before_binary_op as mod
+    shape = helper.make_node("Constant", [], ["s"], value=numpy_helper.from_array(np.array([1, 3], dtype=np.int64), "s"))
+    m = _model([shape, helper.make_node("Expand", ["x", "s"], ["e"]), helper.make_node("Add", ["e", "y"], ["z"])],
+               [vi("x", TensorProto.FLOAT, [3]), vi("y", TensorProto.FLOAT, [3])], [vi("z", TensorProto.FLOAT, [1, 3])])
+    onnx.checker.check_model(m)
+    f = {"x": np.ones(3, np.float32), "y": np.ones(3, np.float32)}
+    before = run(m, f)[0]
+    new = onnxscript.rewriter.rewrite(m, mod.expand_before_binary_op_rules)
+    after = run(new, f)[0]
+    if np.asarray(before).shape != np.asarray(after).shape:
+        print(f"Add(Expand(x[3], [1,3]), y[3]): output shape {np.asarray(before).shape} becomes {np.asarray(after).shape} after the Expand is removed")
+        return 1
+    return 0
+
+
+CASES["expand_rank"] = case_expand_rank
